@@ -347,93 +347,6 @@ impl Number {
         }
     }
 
-    /// `flt_str_to_exp` - used in `to_precision`
-    ///
-    /// This function traverses a string representing a number,
-    /// returning the floored log10 of this number.
-    fn flt_str_to_exp(flt: &str) -> i32 {
-        let mut non_zero_encountered = false;
-        let mut dot_encountered = false;
-        for (i, c) in flt.chars().enumerate() {
-            if c == '.' {
-                if non_zero_encountered {
-                    return (i as i32) - 1;
-                }
-                dot_encountered = true;
-            } else if c != '0' {
-                if dot_encountered {
-                    return 1 - (i as i32);
-                }
-                non_zero_encountered = true;
-            }
-        }
-        (flt.len() as i32) - 1
-    }
-
-    /// `round_to_precision` - used in `to_precision`
-    ///
-    /// This procedure has two roles:
-    /// - If there are enough or more than enough digits in the
-    ///   string to show the required precision, the number
-    ///   represented by these digits is rounded using string
-    ///   manipulation.
-    /// - Else, zeroes are appended to the string.
-    /// - Additionally, sometimes the exponent was wrongly computed and
-    ///   while up-rounding we find that we need an extra digit. When this
-    ///   happens, we return true so that the calling context can adjust
-    ///   the exponent. The string is kept at an exact length of `precision`.
-    ///
-    /// When this procedure returns, `digits` is exactly `precision` long.
-    fn round_to_precision(digits: &mut String, precision: usize) -> bool {
-        if digits.len() > precision {
-            let to_round = digits.split_off(precision);
-            let mut digit = digits
-                .pop()
-                .expect("already checked that length is bigger than precision")
-                as u8;
-            if let Some(first) = to_round.chars().next()
-                && first > '4'
-            {
-                digit += 1;
-            }
-
-            if digit as char == ':' {
-                // ':' is '9' + 1
-                // need to propagate the increment backward
-                let mut replacement = String::from("0");
-                let mut propagated = false;
-                for c in digits.chars().rev() {
-                    let d = match (c, propagated) {
-                        ('0'..='8', false) => (c as u8 + 1) as char,
-                        (_, false) => '0',
-                        (_, true) => c,
-                    };
-                    replacement.push(d);
-                    if d != '0' {
-                        propagated = true;
-                    }
-                }
-                digits.clear();
-                let replacement = if propagated {
-                    replacement.as_str()
-                } else {
-                    digits.push('1');
-                    &replacement.as_str()[1..]
-                };
-                for c in replacement.chars().rev() {
-                    digits.push(c);
-                }
-                !propagated
-            } else {
-                digits.push(digit as char);
-                false
-            }
-        } else {
-            digits.push_str(&"0".repeat(precision - digits.len()));
-            false
-        }
-    }
-
     /// `Number.prototype.toPrecision( [precision] )`
     ///
     /// The `toPrecision()` method returns a string representing the Number object to the specified precision.
@@ -481,7 +394,7 @@ impl Number {
         // 7
         let mut prefix = String::new(); // spec: 's'
         let mut suffix: String; // spec: 'm'
-        let mut exponent: i32; // spec: 'e'
+        let exponent: i32; // spec: 'e'
 
         // 8
         if this_num < 0.0 {
@@ -495,23 +408,12 @@ impl Number {
             exponent = 0;
         // 10
         } else {
-            // Due to f64 limitations, this part differs a bit from the spec,
-            // but has the same effect. It manipulates the string constructed
-            // by `format`: digits with an optional dot between two of them.
-            suffix = format!("{this_num:.100}");
-
-            // a: getting an exponent
-            exponent = Self::flt_str_to_exp(&suffix);
-            // b: getting relevant digits only
-            if exponent < 0 {
-                suffix = suffix.split_off((1 - exponent) as usize);
-            } else if let Some(n) = suffix.find('.') {
-                suffix.remove(n);
-            }
-            // impl: having exactly `precision` digits in `suffix`
-            if Self::round_to_precision(&mut suffix, precision) {
-                exponent += 1;
-            }
+            // a, b: `precision` significant digits of the exact decimal expansion of the number,
+            // rounded to nearest (the larger value on ties), and the decimal exponent of the
+            // first digit.
+            let (digits, digits_exponent) = round_to_significant_digits(this_num, precision);
+            suffix = digits;
+            exponent = digits_exponent;
 
             // c: switching to scientific notation
             let great_exp = exponent >= precision_i32;
@@ -984,15 +886,65 @@ fn f64_to_exponential(n: f64) -> JsString {
     }
 }
 
-/// Helper function that formats a float as a ES6-style exponential number string with a given precision.
-// We can't use the same approach as in `f64_to_exponential`
-// because in cases like (0.999).toExponential(0) the result will be 1e0.
-// Instead we get the index of 'e', and if the next character is not '-' we insert the plus sign
-fn f64_to_exponential_with_precision(n: f64, prec: usize) -> JsString {
-    let mut res = format!("{n:.prec$e}");
-    let idx = res.find('e').expect("'e' not found in exponential string");
-    if res.as_bytes()[idx + 1] != b'-' {
-        res.insert(idx + 1, '+');
+/// Exact decimal expansion of a finite, non-negative `f64`: 768 significant decimal digits (ASCII;
+/// the first one is `0` only for zero) and the decimal exponent of the first digit, i.e.
+/// `n = d.ddd… × 10^exponent`.
+fn exact_decimal_digits(n: f64) -> (Vec<u8>, i32) {
+    // A binary64 value has at most 767 significant decimal digits and formatting with an explicit
+    // precision is exact, so this is the complete expansion, padded with zeros.
+    let s = format!("{n:.767e}");
+    let (mantissa, exponent) = s
+        .split_once('e')
+        .expect("'e' not found in exponential string");
+    let digits = mantissa.bytes().filter(u8::is_ascii_digit).collect();
+    let exponent = exponent
+        .parse()
+        .expect("invalid exponent in exponential string");
+    (digits, exponent)
+}
+
+/// Rounds the exact value of a finite, non-negative `f64` to `count` (1 to 101) significant decimal
+/// digits, picking the larger value when two are equally close, as `toExponential` and
+/// `toPrecision` require. Returns the `count` digits and the decimal exponent of the first one.
+fn round_to_significant_digits(n: f64, count: usize) -> (String, i32) {
+    let (mut digits, mut exponent) = exact_decimal_digits(n);
+    // The expansion is exact, so looking at the first dropped digit is a correct round-half-up.
+    let round_up = digits[count] >= b'5';
+    digits.truncate(count);
+    if round_up {
+        let mut i = count;
+        loop {
+            if i == 0 {
+                // Every kept digit was a 9: 99…9 becomes 10…0 with a larger exponent.
+                digits.insert(0, b'1');
+                digits.pop();
+                exponent += 1;
+                break;
+            }
+            i -= 1;
+            if digits[i] == b'9' {
+                digits[i] = b'0';
+            } else {
+                digits[i] += 1;
+                break;
+            }
+        }
     }
+    (
+        String::from_utf8(digits).expect("decimal digits are ASCII"),
+        exponent,
+    )
+}
+
+/// Helper function that formats a float as a ES6-style exponential number string with a given precision.
+// `format!("{n:.prec$e}")` can not be used here: it rounds ties to even, while the specification
+// picks the larger value, e.g. `(2.5).toExponential(0)` is "3e+0" and `(1.25).toExponential(1)` is "1.3e+0".
+fn f64_to_exponential_with_precision(n: f64, prec: usize) -> JsString {
+    let (sign, n) = if n < 0.0 { ("-", -n) } else { ("", n) };
+    let (digits, exponent) = round_to_significant_digits(n, prec + 1);
+    let (first, rest) = digits.split_at(1);
+    let point = if rest.is_empty() { "" } else { "." };
+    let exponent_sign = if exponent < 0 { "" } else { "+" };
+    let res = format!("{sign}{first}{point}{rest}e{exponent_sign}{exponent}");
     js_string!(res)
 }
